@@ -69,7 +69,7 @@ CHECKS["C19"] = dict(
 )
 CHECKS["C06"] = dict(
     category="proof",
-    text="Coq model of the wallet process as persistent store + volatile state (tip copy, keystore table, task queue) over the C01 ledger: the volatile state is a function of the store at every commit boundary, a run with crashes at any list of commit indexes equals the uncrashed run once the node's tip announcement is processed (= the chain specification), Start leaves the wallet on the node's tip, the rebuilt task queue has the lost queue's members (partial), refutation witness for the start-up defect repaired in 94ad7bb. Tied to the code by crash-point enumeration on the real wallet: histories (create/new address/import/remove/blocks/reorgs/background work/Start) replayed with the LevelDB handle closed right after commit k (single/double/triple crashes, node moving on while down), reopened, compared with the uncrashed twin and, through the C01 driver, with the model and the chain specification.",
+    text="Coq model of crash and restart over the C01 ledger and the C07/C08 task models: a crash right after any commit (any list of crash points) followed by Start (catch-up, reorganisation of a replaced tip, the fast-forward taken only over a stored tip that is still on the node's chain) and the rest of the history gives the ledger and reports of the run that never stopped; restart from ANY state of the import invariant on any chain the node moved to ends on the node's tip and further rescan batches make the wallet ready with the chain's ledger; the task queue rebuilt from the status records has exactly the members the crash lost, import and removal steps resume; refutation witnesses for the two repaired start-up defects (replaced tip at the same height, fast-forward over a stale fork while a wallet is being imported). Tied to the code by crash-point enumeration on the real wallet: the LevelDB handle is closed right after commit k (all volatile state lost), the node moves on or reorganises while the wallet is down, the wallet is reopened, possibly crashed again, and after catching up compared with the uncrashed twin, the extracted model and the chain specification — ordinary histories (create, addresses, blocks, reorganisations, import, removal) and the import-only family (only wallets being restored, chains longer than one rescan batch, node forked below or above the cursor and grown by a few or by more than 2000 blocks).",
     design_ref="DESIGN.md section 5, C06",
     note="Trusted: Coq kernel (no axioms), ocaml/C01 driver + ExtrOcamlBasic, harness (dbwrap, cfsim, sim, hist; deterministic crypto/rand swap), LevelDB journal for a crash inside a batch write. Theorems exclude fast-forward over a stale fork and a node reorganised back to genesis; ledger effect of import/removal steps enumerated only. Known finding addressbook-row-lost-by-rollback (address rows compared separately).",
     technique="Coq proof (crash = restart from the store, induction over histories using the C01 theorems) + crash-point enumeration on the real wallet with twin comparison",
@@ -139,7 +139,7 @@ CHECKS["C17"] = dict(
 )
 CHECKS["C20"] = dict(
     category="proof",
-    text="Coq labelled transition system of handler, worker, stopper, API client and announcing node with program counters at every channel operation (rendezvous suspend/resume, bounded queues, quit, wait group): by induction over reachable states with an invariant and a ranking function — no deadlock while running, every announced block is processed and every accepted task finishes, no task is dropped, hand-shake gives mutual exclusion, Stop terminates in the repaired protocol; the deadlock and the nil task queue of the code as found are refuted with reachable witnesses (and shown permanent). Tied to the code by steering the REAL goroutines through DB-wrapper gates along the model's paths (259 steered schedules + deterministic probes of the two repaired defects + unsteered races per quick run) and checking every observed event sequence and outcome for membership in the extracted model; a hung Stop is detected by timeout with a goroutine dump.",
+    text="Coq transition system of the follower / worker hand-shake (suspend, resume, quit, the task queue with its non-blocking pushes, the API's busy test), its queue configuration translated from the compiled code on every run: while running no reachable state is deadlocked, every maximal run processes every announced tip and finishes every accepted import or removal, the non-blocking pushes never drop a task exactly when the queue has one slot more than the busy threshold (also for every number of tasks pending at start-up), Stop terminates from every reachable state; refutation witnesses for the two repaired defects (Stop deadlock, queue created too late) and for a queue one slot short. Tied to the code by steered schedules on the real goroutines through the DB wrapper (stops at chosen moments of imports, removals, queued blocks), deterministic probes, and queue-pressure schedules (a multi-round task held in a round while the API fills the queue until it answers busy, restart with unfinished tasks): observed event sequences must be paths of the extracted model, every accepted task must finish, Stop must return with the database closed.",
     design_ref="DESIGN.md section 5, C20",
     note="Remainder: Go scheduler fairness and select randomness are nondeterminism in the model (every choice covered by the theorems, not forced in the runs); placements between two channel operations with no database call in between cannot be held from outside. Trusted: Coq kernel (no axioms), ExtrOcamlBasic + driver, harness (sched wrapper, stack-based role detection). Two defects repaired (423c8aa, 42cbcc9).",
     technique="Coq proof (invariant + ranking function over a transition system) + schedule-controlled replay on the real goroutines with trace inclusion in the extracted model",
